@@ -498,6 +498,20 @@ func (self *Fork) reset() {
 
 func (self *Fork) resetPartial() error {
 	self.lastPrint = time.Now()
+	if _, isStage := self.node.call.Callable().(*syntax.Stage); isStage {
+		// An error recorded for the fork itself, rather than for one of
+		// its jobs, comes from processing what its jobs returned (missing
+		// or ill-typed outputs); so does an error recorded for the join of
+		// a stage which does not split, which is only a copy of what the
+		// one chunk returned.  The job which produced those outputs
+		// completed, so resetting failed jobs would not run it again and
+		// the error would stay forever: start the fork over.
+		forkState, _ := self.metadata.getState()
+		joinState, _ := self.join_metadata.getState()
+		if forkState == Failed || (!self.Split() && joinState == Failed) {
+			return self.resetFully()
+		}
+	}
 	if err := self.split_metadata.checkedReset(); err != nil {
 		return err
 	}
@@ -509,6 +523,39 @@ func (self *Fork) resetPartial() error {
 			return err
 		}
 	}
+	return nil
+}
+
+// Removes everything the fork's jobs left behind, so that it runs again
+// from the start.
+func (self *Fork) resetFully() error {
+	util.PrintInfo("runtime", "(reset)           %s", self.fqname)
+	for _, chunk := range self.chunks {
+		if err := chunk.metadata.removeAll(true); err != nil {
+			return err
+		}
+	}
+	if err := self.split_metadata.removeAll(true); err != nil {
+		return err
+	}
+	if err := self.join_metadata.removeAll(true); err != nil {
+		return err
+	}
+	if err := self.metadata.removeAll(true); err != nil {
+		return err
+	}
+	// Remove all related files from journal directory.
+	if dir, base := path.Split(self.split_metadata.journalPath); base != "" {
+		if files, err := util.Readdirnames(dir); err == nil {
+			for _, file := range files {
+				if strings.HasPrefix(file, base+".") {
+					os.Remove(path.Join(dir, file))
+				}
+			}
+		}
+	}
+	self.reset()
+	self.mkdirs()
 	return nil
 }
 
